@@ -43,9 +43,28 @@ def lookalikes(style):
     return out
 
 
-def run_entry(style, entry, text, eol="\n"):
+def _emit(g, entry, text):
+    if entry == "comment":
+        g.comment(text)
+    elif entry == "comment_args":
+        g.comment("note", text, 5)
+    elif entry == "annotate":
+        g.annotate("key", text)
+    elif entry in ("move", "rapid", "move_absolute", "rapid_absolute", "set_axis"):
+        getattr(g, entry)(x=3.0, comment=text)
+    elif entry == "probe":
+        g.probe("towards", z=-1.0, comment=text)
+    elif entry == "auto_home":
+        g.auto_home(x=0.0, comment=text)
+    elif entry == "emergency_halt":
+        g.emergency_halt(text)
+
+
+def run_entry(style, entry, text, eol="\n", pre_style=None):
+    """pre_style: the builder lived under another comment style first and wrote the same text there; the style was then
+    changed with g.format.set_comment_symbols() -- only what is written AFTER the change is returned (and judged under `style`)."""
     from gscrib import GCodeBuilder
-    g = GCodeBuilder(comment_symbols=style, line_endings={"\n": "\\n", "\r\n": "\\r\\n"}[eol], decimal_places=3)
+    g = GCodeBuilder(comment_symbols=pre_style or style, line_endings={"\n": "\\n", "\r\n": "\\r\\n"}[eol], decimal_places=3)
     try:
         while True:
             g.remove_writer(g.get_writer(0))
@@ -53,6 +72,15 @@ def run_entry(style, entry, text, eol="\n"):
         pass
     rw = RecWriter()
     g.add_writer(rw.make())
+    if pre_style:
+        try:
+            _emit(g, entry, text)
+        except Exception:
+            pass
+        if entry == "emergency_halt":
+            g.move(x=0.5)
+        g.format.set_comment_symbols(style)
+        rw.take()
     res = "ok"
     try:
         g.move(x=1.0, y=2.0)
@@ -76,9 +104,9 @@ def run_entry(style, entry, text, eol="\n"):
     return b"".join(rw.take()), res
 
 
-def case(style, entry, text, eol="\n"):
-    out, res = run_entry(style, entry, text, eol)
-    ref, refres = run_entry(style, entry, "x", eol)
+def case(style, entry, text, eol="\n", pre_style=None):
+    out, res = run_entry(style, entry, text, eol, pre_style)
+    ref, refres = run_entry(style, entry, "x", eol, pre_style)
     return {"out": list(out), "ref": list(ref), "res": res, "refres": refres, "entry": entry,
             "text": list(text.encode("utf-8", "replace"))}
 
@@ -127,6 +155,12 @@ class P(flow.Plan):
                 for la in lookalikes(style):
                     payloads += [la + "M3 S1", "a " + la + "G0 Z-5 " + (c or ""), la + la]
                 ev = [case(style, entry, p, "\r\n" if (len(p) + len(entry)) % 5 == 0 else "\n") for p in payloads]
+                # the comment style is changed on a living builder that has already written the same text under another
+                # style (added after seed C09d: a memoised sanitiser that survived set_comment_symbols())
+                if entry in ("comment", "move", "annotate", "emergency_halt"):
+                    for pre in rng.sample([st for st in STYLES if st != style], 2):
+                        for p in [t1 + t2 for t1 in toks for t2 in toks][::4] + [(c or "\n") + " M112 " + o, "a" + (c or ";") + "M3 S1"]:
+                            ev.append(case(style, entry, p, "\n", pre))
                 traces.append({"meta": {"style": {"open": list(o.encode()), "close": list(c.encode())}, "entry": entry, "stylename": style}, "ev": ev})
                 inputs.append({"style": style, "entry": entry, "payloads": payloads})
         return traces, inputs
